@@ -46,7 +46,7 @@ Print Assumptions C05_fqn_is_path_plus_name.
    unknown class and junk between siblings *)
 Definition A := [65%N]. Definition B := [66%N]. Definition I := [73%N]. Definition R := [82%N]. Definition C := [67%N].
 Definition demo : dfile :=
-  [DNs [A; B] [DItf [I] [DEnum [R] [[79%N]]; DSubInt [C] 0 5]
+  [DNs [A; B] [DItf [I] [ITType (DEnum [R] [[79%N]]); ITOther (lit "type-alias"); ITType (DSubInt [C] 0 5)]
                  [{| de_name := [101%N]; de_dir := EOut; de_ret := [lit "void"]; de_formals :=
                        [{| df_name := [120%N]; df_type := [R]; df_dir := FIn |}] |}];
                DUnknown (lit "bogus"); DJunk (JInt 3)];
